@@ -35,6 +35,7 @@ type req struct {
 	Dst    string `json:"dst"` // own, own2, foreign, unassigned
 	Frags  int    `json:"fragments"`
 	View   int    `json:"view_size"`
+	Orphan bool   `json:"orphan_first"` // fragmented requests: the fragments of another request from the same host, minus its last one, arrive first (it lost a fragment)
 	Pad    int    `json:"link_padding"` // bytes the link appended behind the IP packet (Ethernet minimum frame size and the like)
 }
 
@@ -131,6 +132,17 @@ func (x *host) send(q req, r *fw.Rand) {
 		x.h.L.Inject(ipv4.ProtocolNumber, pad(ip.Bytes(true)), "")
 		return
 	}
+	if q.Orphan {
+		// another request of the same host whose last fragment got lost: other identification,
+		// other identifier / sequence number, other payload; it stays incomplete
+		om := rfc.ICMP{Type: 8, Rest: [4]byte{byte(^q.ID >> 8), byte(^q.ID), byte(^q.Seq >> 8), byte(^q.Seq)}, Payload: payload(^q.ID, ^q.Seq, q.Len+8)}
+		ow := om.BytesV4(true)
+		cut := 8 * (1 + (len(ow)/8-1)/2)
+		for _, c := range [][2]int{{0, cut}} {
+			f := rfc.IPv4{TTL: 64, Proto: rfc.ProtoICMP, ID: q.ID ^ q.Seq ^ 0x4000, Src: src4, Dst: d4, Flags: 1, FragOff: uint16(c[0] / 8), Payload: ow[c[0]:c[1]]}
+			x.h.L.Inject(ipv4.ProtocolNumber, f.Bytes(true), "")
+		}
+	}
 	blocks := (len(whole) + 7) / 8
 	n := q.Frags
 	if n > blocks {
@@ -214,6 +226,12 @@ func judgeOne(x *host, q req, r *fw.Rand) {
 	x.take()
 	x.send(q, r)
 	settle()
+	if q.Orphan {
+		// let the incomplete request age beyond the reassembly timeout, so that it cannot meet
+		// a later datagram with the same identification
+		defer time.Sleep(31 * time.Second)
+		run.Count("fragmented_requests_behind_an_incomplete_one", 1)
+	}
 	reps, _ := decode(x.take())
 	d4, d6, own := dstOf(q)
 	viol := func(key, what string) { run.Violation("C13/"+key, what, q) }
@@ -333,6 +351,7 @@ func child(t *testing.T) {
 				if !q.V6 && r.Chance(1, 4) {
 					q.Frags = 2 + r.Intn(4)
 					q.Len = 64 + r.Intn(4000) // fragmented requests may exceed the MTU as a whole
+					q.Orphan = r.Chance(1, 3)
 				}
 				if !q.V6 && r.Chance(1, 10) {
 					if r.Bool() {
